@@ -136,7 +136,10 @@ def check_vector(v):
     # chunked reading with every chunk size >= the largest record
     largest = max(v["sizes"])
     total = len(body)
-    for K in sorted(set([largest, largest + 1, largest + 2, total - 1, total, total + 1] + list(range(largest, total + 2, 7)))):
+    Ks = sorted(set([largest, largest + 1, largest + 2, total - 1, total, total + 1] + list(range(largest, total + 2, 7))))
+    if len(Ks) > 40:        # files with very long records: the ends of the range and an even sample of it
+        Ks = sorted(set(Ks[:6] + Ks[-6:] + Ks[::len(Ks) // 28]))
+    for K in Ks:
         if K < largest:
             continue
         o = outcome(lambda: [r for c in bnp.open(path).read_chunks(min_chunk_size=K) for r in _project(c)])
@@ -289,6 +292,9 @@ def run(ctx):
     res4 = ctx.tlc("MC_C16", tag="MC_C16_four", spec="Spec", constants={"MaxRecs": 4 if quick else 5, "Pick": [1, 6] if quick else [1, 6, 2]},
                    invariants=["RoundTrip", "SizesAdd", "Emit"])
     vectors += [v for v in res4.vectors if len(v["recs"]) >= 4]
+    # very long records: 300 CIGAR operations, a read of 65 537 bases (fields whose upper bytes are zero in every short record)
+    resl = ctx.tlc("MC_C16", tag="MC_C16_long", spec="Spec", constants={"MaxRecs": 2, "Pick": [1, 11, 12] if quick else [1, 2, 11, 12]}, invariants=["RoundTrip", "SizesAdd", "Emit"])
+    vectors += [v for v in resl.vectors if any(len(r["cigar"]) > 255 or len(r["seq"]) > 65535 for r in v["recs"])]
     for i, v in enumerate(vectors):
         v["_id"] = i
         v["_dir"] = ctx.work
